@@ -334,6 +334,13 @@ func (r *DeviceLocal) ProcessCmd(datagram model.DatagramType, remoteDevice api.D
 
 	destAddr := datagram.Header.AddressDestination
 	localFeature := r.FeatureByAddress(destAddr)
+	// a result for a destination that is not known names the addressed entity and feature
+	// of this device as its source, whatever device part the request carried (it is optional)
+	unknownDestAddr := &model.FeatureAddressType{
+		Device:  r.Address(),
+		Entity:  destAddr.Entity,
+		Feature: destAddr.Feature,
+	}
 
 	cmdClassifier := datagram.Header.CmdClassifier
 	if len(datagram.Payload.Cmd) == 0 {
@@ -365,7 +372,7 @@ func (r *DeviceLocal) ProcessCmd(datagram model.DatagramType, remoteDevice api.D
 	} else {
 		errorMessage := "cmdClassifier may not be empty"
 
-		_ = remoteFeature.Device().Sender().ResultError(message.RequestHeader, destAddr, model.NewErrorType(model.ErrorNumberTypeDestinationUnknown, errorMessage))
+		_ = remoteFeature.Device().Sender().ResultError(message.RequestHeader, unknownDestAddr, model.NewErrorType(model.ErrorNumberTypeDestinationUnknown, errorMessage))
 
 		return errors.New(errorMessage)
 	}
@@ -375,7 +382,7 @@ func (r *DeviceLocal) ProcessCmd(datagram model.DatagramType, remoteDevice api.D
 
 		// Don't send error responses for incoming result messages
 		if message.CmdClassifier != model.CmdClassifierTypeResult {
-			_ = remoteFeature.Device().Sender().ResultError(message.RequestHeader, destAddr, model.NewErrorType(model.ErrorNumberTypeDestinationUnknown, errorMessage))
+			_ = remoteFeature.Device().Sender().ResultError(message.RequestHeader, unknownDestAddr, model.NewErrorType(model.ErrorNumberTypeDestinationUnknown, errorMessage))
 		}
 
 		return errors.New(errorMessage)
